@@ -1598,4 +1598,105 @@ class C15(Prop):
                 return
 
 
-ALL = {c.id: c for c in [C01, C02, C03, C04, C05, C06, C07, C08, C09, C10, C11, C12, C13, C14, C15, C17, C18]}
+STRAT_TAGS = {"EV", "SN", "RR", "HL", "K", "TV", "PANIC", "REJECT-ADMISSION", "ok", "reset", "bad-op", "dead"}
+
+
+class C16(Prop):
+    id = "C16"
+    streams = [Stream("strategy", "mix", quick=300, thorough=20000, driver="strat", tags=STRAT_TAGS, state_tags={"G", "S", "XB", "H"}),
+               Stream("strategy", "constant", quick=150, thorough=10000, driver="strat", tags=STRAT_TAGS, state_tags={"G", "S", "XB", "H"})]
+    determined = False
+    rule = ("the real StaticWeightStrategy over the real broker over TestClient / eager / lazy clients: datasets of 1..14 dates with gaps, "
+            "1..3 target weights (including an unquoted symbol and zero weights), cost lists, deposits through init (also a second "
+            "deposit), interleaved withdraw_cash (small, large, impossible), step-wise update() calls followed by the real run() for "
+            "the rest; one stream with constant prices and zero spread; non-trivial = at least two updates, a snapshot after a "
+            "successful withdrawal or a completed run() of at least 2 updates")
+    level_text = ("Theorems C16.* (Lean 4): one update = one clock tick and exactly one snapshot dated with the clock after the tick and "
+                  "valued at the broker's total value; from a fresh backtest has_next holds after k updates iff k < N (the loop makes "
+                  "exactly N updates); over every history of init / withdraw / update net_cash_flow = successful deposits - withdrawals "
+                  "(ghost invariant) and each snapshot carries it; with constant prices and zero spread the book value after any history "
+                  "= initial book value + net cash flow for every weight map, cost list and variant. Tied to StaticWeightStrategy by "
+                  "step-wise correspondence (snapshots, clock, total value, history length) plus run() for the remaining dates, and a "
+                  "history monitor on the implementation's traces.")
+    level_note = BRK_NOTE + "; the value theorem carries the side condition that a symbol universe covers the traded symbols"
+    technique = "Lean 4 invariants over strategy histories (clock position, ghost net cash flow, book value at fixed prices) + correspondence + history monitor"
+    design_ref = "DESIGN.md section 8, C16"
+    assumptions = ["withdrawals are withdraw_cash (withdraw_cash_with_liquidation is C10's subject)", "portfolio of non-zero value (the diff panics otherwise: zero-cash runs are generated and only checked to panic for that reason)"]
+
+    def nontrivial(self, stream, annot, impl):
+        ups = sum(1 for o in annot if o.startswith("UPDATE"))
+        rr = 0
+        for l in impl:
+            s = sections(l)
+            if "RR" in s:
+                rr = int(s["RR"][0])
+        return ups >= 2 or rr >= 2
+
+    def monitor(self, stream, annot, impl):
+        net = Fraction(0)
+        deposited_any = False
+        constant = stream.flavour == "constant"
+        last_date = None
+        hl = 0
+        prev_ready, pos_prev, tv_nonzero, tv_prev = True, 0, False, 0.0
+        for k, (op, out) in enumerate(zip(annot, impl)):
+            t = op.split(" @ ")[0].split()
+            s = sections(out)
+            if t[0] == "RESET":
+                net, deposited_any, last_date, hl = Fraction(0), False, None, 0
+                prev_ready, pos_prev, tv_nonzero, tv_prev = True, 0, False, 0.0
+                continue
+            if out in ("dead", "ok") or "K" not in s and out != "PANIC":
+                continue
+            if out == "PANIC":
+                if t[0] in ("RUNREST", "UPDATE") and tv_nonzero:
+                    yield (k, "loop-terminates-without-panic", f"{t[0]} panicked although the portfolio value was {tv_prev}")
+                    return
+                continue
+            ready = s["S"] == ["Ready"]
+            if t[0] == "INIT" and prev_ready:
+                net += fr(t[1])
+            if t[0] == "WD" and s["EV"] == ["WOK"]:
+                net -= fr(t[1])
+            snaps = []
+            if t[0] == "UPDATE":
+                snaps = [(int(s["SN"][0]), s["SN"][1], s["SN"][2])]
+                if int(s["HL"][0]) != hl + 1:
+                    yield (k, "one-snapshot-per-update", f"history length {hl} -> {s['HL'][0]}")
+                    return
+                if int(s["SN"][0]) != int(s["K"][1]) or s["SN"][1] != s["TV"][0]:
+                    yield (k, "snapshot-is-clock-and-total-value", f"snapshot {s['SN']} clock {s['K']} total value {s['TV']}")
+                    return
+            if t[0] == "RUNREST":
+                n = int(s["RR"][0])
+                x = s["SNS"][1:]
+                snaps = [(int(x[3 * i]), x[3 * i + 1], x[3 * i + 2]) for i in range(n)]
+                pos_before, ndates = pos_prev, int(s["K"][2])
+                if n != max(0, ndates - pos_before):
+                    yield (k, "exactly-N-updates", f"run() made {n} updates from position {pos_before} of {ndates} dates")
+                    return
+                if int(s["HL"][0]) != hl + n:
+                    yield (k, "one-snapshot-per-update", f"history length {hl} -> {s['HL'][0]} after {n} updates")
+                    return
+            for (d, v, ncf) in snaps:
+                if last_date is not None and d < last_date:
+                    yield (k, "snapshot-dates-non-decreasing", f"{last_date} then {d}")
+                    return
+                last_date = d
+                if not close(fr(ncf), net, 1e-9, 1.0):
+                    yield (k, "net-cash-flow-is-deposits-minus-withdrawals", f"snapshot net_cash_flow {fdec(ncf)}, deposits - withdrawals so far {float(net)}")
+                    return
+                if constant and not close(fr(v), net, 1e-9, 1.0):
+                    yield (k, "trading-creates-no-value", f"constant prices, zero spread: snapshot value {fdec(v)}, cash deposited (net) {float(net)}")
+                    return
+            hl = int(s["HL"][0])
+            pos_prev = int(s["K"][0])
+            prev_ready = ready
+            tv_prev = fdec(s["TV"][0])
+            tv_nonzero = tv_prev != 0.0
+
+    def __init__(self):
+        pass
+
+
+ALL = {c.id: c for c in [C01, C02, C03, C04, C05, C06, C07, C08, C09, C10, C11, C12, C13, C14, C15, C16, C17, C18]}
